@@ -585,6 +585,12 @@ func init() {
 		checkLookupArgs(r, prog, a, a.MatchEval, "c05")
 		checkLookupArgs(r, prog, a, a.CollEval, "c05")
 		checkValueLookup(r, prog, a, "c05") // one lookup, with the path parts as they are (no retry under another spelling of the parts)
+		// a part written in brackets is a string literal, a JSON-Pointer segment is drawn from character classes: the
+		// spellings name the same part only if the literal is decoded by the documented rules and the classes are Unicode's
+		r.importing = "C16"
+		checkLiteralFidelity(r, ga)
+		r.importing = "C15"
+		checkRuleRefAndClasses(r, prog, "c15")
 		r.importing = ""
 		r.Technique = "typed-AST analysis of the grammar actions that produce path parts (offset rule: bytes dropped = length of the production's leading literal; pass-through and whole-match forms only), of the JSON-pointer action (pointerstructure.Parse wiring), rule-reference identity for every selector label; field-read / call census in package bexpr (spelling-blindness, no normalisation)"
 		r.Explain = "Decides: evaluation consumes Selector.Path only (no read of Selector.Type in package bexpr; a selector's text feeds error messages only; both consumers pass exactly Selector.Path to the lookup); every action whose value can become a path part returns the matched text, the matched text minus exactly the one-byte separator that starts its production, a passed-through label, or the unquoted string literal of the bracket form — no trimming, case folding or numeric normalisation; the JSON-pointer action joins its segments with '/', prefixes '/', hands that to pointerstructure.Parse, replaces Path by the parsed Parts and returns a parse error; all selector labels reference one and the same rule (so quantified collections and bodies use the same production). NOT decided: pointerstructure.Parse's RFC 6901 unescaping and pointerstructure's exact matching of parts against keys/fields (read, trusted)."
